@@ -90,7 +90,7 @@ def toLowerCamel (s : String) : String :=
   String.ofList (up.map Char.toLower ++ cs.drop up.length)
 
 /-- the pool `NewVarPool` starts from, regenerated from const.go -/
-def seedPool : Pool := (Gen.predeclared ++ Gen.keywords).foldl (fun p k => setCount p k 1) []
+def seedPool : Pool := (Gen.predeclared ++ Gen.keywords ++ Gen.generatorLocals).foldl (fun p k => setCount p k 1) []
 
 inductive Req where
   | name (base : String)        -- GetName(base)
